@@ -222,7 +222,7 @@ class Oracle:
                 if verdict in ("reject", "illformed"):
                     st["rejects"] += 1
                     rec["failure"] = dict(kind="result-not-in-inferred-type", verdict=verdict, value=rec["run"].value[:400],
-                                          lenient="(lenient 1)" in v, fnres="(fnres 1)" in v, nevertop="(nevertop 1)" in v, fnreslen="(fnreslen 1)" in v,
+                                          lenient="(lenient 1)" in v, fnres="(fnres 1)" in v, nevertop="(nevertop 1)" in v, fnreslen="(fnreslen 1)" in v, niltop="(niltop 1)" in v,
                                           never=rec["run"].tables.find("(types (union)") >= 0 and rec["run"].rtype == 0)
                 elif not wt:
                     st["illtyped_tuples"] += 1
@@ -417,20 +417,130 @@ def explode(src):
     return [",\n".join(steps[:-1] + ["[" + p + "]"]) for p in parts]
 
 
-def cut_cons_tails(src, drop_head=False):
-    """every outermost `Cons[h, t]` literal becomes `Cons[h, Nil]` (or, with drop_head, `t`)"""
-    out, i = [], 0
+def cons_spines(src):
+    """outermost `Cons[h, t]` literals OUTSIDE every `{ }` (function bodies / blocks hold patterns):
+    (start, end, [head texts], last tail text)"""
+    out, i, depth = [], 0, 0
     flat = src.replace("[", "(").replace("]", ")").replace("{", "(").replace("}", ")")
+    instr = False
     while i < len(src):
-        if src.startswith("Cons[", i) and (i == 0 or not (src[i - 1].isalnum() or src[i - 1] == "_")):
+        c = src[i]
+        if instr:
+            if c == "\\":
+                i += 1
+            elif c == '"':
+                instr = False
+        elif c == '"':
+            instr = True
+        elif c == "{":
+            depth += 1
+        elif c == "}":
+            depth -= 1
+        elif depth == 0 and src.startswith("Cons[", i) and (i == 0 or not (src[i - 1].isalnum() or src[i - 1] == "_")):
             j = balanced_end(flat, i + 4)
-            parts = split_top(src[i + 5:j])
-            if len(parts) == 2:
-                out.append(parts[1].strip() if drop_head else "Cons[" + parts[0].strip() + ", Nil]")
-                i = j + 1
-                continue
-        out.append(src[i]); i += 1
+            heads, cur = [], src[i:j + 1]
+            while cur.startswith("Cons[") and cur.endswith("]"):
+                parts = split_top(cur[5:-1])
+                if len(parts) != 2:
+                    break
+                heads.append(parts[0].strip())
+                cur = parts[1].strip()
+            if not (cur.startswith("^") or any(h.startswith("'") or h.startswith("^") for h in heads)):
+                out.append((i, j, heads, cur))       # (a type expression `Cons['t, ^]` is not a literal)
+            i = j
+        i += 1
+    return out
+
+
+def lit_shape(txt):
+    t = re.sub(r'"(?:\\.|[^"\\])*"', "S", txt)
+    t = re.sub(r"0x[0-9a-fA-F]*", "B", t)
+    t = re.sub(r"-?\d+", "I", t)
+    return re.sub(r"\s+", "", t)
+
+
+def heterogeneous_cons(src):
+    """some list literal has elements of different shapes, or does not end in Nil"""
+    for _, _, heads, tail in cons_spines(src):
+        if len(set(lit_shape(h) for h in heads)) >= 2 or (heads and tail != "Nil" and not re.match(r"^[a-z~$]", tail)):
+            return True
+    return False
+
+
+def cut_cons_tails(src, drop_head=False):
+    """every outermost `Cons[h, t]` literal outside braces becomes `Cons[h, Nil]` (or, with
+    drop_head, `t`)"""
+    out, last = [], 0
+    for (i, j, heads, tail) in cons_spines(src):
+        parts = split_top(src[i + 5:j])
+        if len(parts) != 2:
+            continue
+        out.append(src[last:i])
+        out.append(parts[1].strip() if drop_head else "Cons[" + parts[0].strip() + ", Nil]")
+        last = j + 1
+    out.append(src[last:])
     return "".join(out)
+
+
+def fn_literal_bodies(src):
+    """(open, close) brace positions of the bodies of the function literals `#T { .. }` that stand
+    inside a bracketed argument `[ .. ]`"""
+    out = []
+    flat = src.replace("[", "(").replace("]", ")").replace("{", "(").replace("}", ")")
+    depth_sq, instr, i = 0, False, 0
+    while i < len(src):
+        c = src[i]
+        if instr:
+            if c == "\\":
+                i += 1
+            elif c == '"':
+                instr = False
+        elif c == '"':
+            instr = True
+        elif c == "[":
+            depth_sq += 1
+        elif c == "]":
+            depth_sq -= 1
+        elif c == "#" and depth_sq > 0 and i + 1 < len(src) and src[i + 1] != "<":
+            # skip the parameter type up to the body brace at relative depth 0
+            j, d = i + 1, 0
+            while j < len(src):
+                ch = src[j]
+                if ch in "([":
+                    d += 1
+                elif ch in ")]":
+                    if d == 0:
+                        break
+                    d -= 1
+                elif ch == "{" and d == 0:
+                    break
+                elif ch in ",\n" and d == 0:
+                    break
+                j += 1
+            if j < len(src) and src[j] == "{":
+                e = balanced_end(flat, j)
+                out.append((j, e))
+        i += 1
+    return out
+
+
+def rename_typevars_apart(src):
+    """each generic function literal `#<'a, 'b> P { body }` gets its own variable names"""
+    out = src
+    k = 0
+    for m in list(re.finditer(r"#<([^<>]*)>", src))[::-1]:
+        names = [x.strip() for x in m.group(1).split(",") if x.strip().startswith("'")]
+        j = src.find("{", m.end())
+        if j < 0:
+            continue
+        flat = src.replace("[", "(").replace("]", ")").replace("{", "(").replace("}", ")")
+        e = balanced_end(flat, j)
+        seg = src[m.start():e + 1]
+        k += 1
+        for nm in names:
+            seg = re.sub(re.escape(nm) + r"(?![A-Za-z0-9_])", nm + "c01v%d" % k, seg)
+        out = out[:m.start()] + seg + out[e + 1:]
+    return out
 
 
 def prefixes(src):
@@ -467,9 +577,11 @@ def prefixes(src):
 # symbolic signature -> id in known_findings.json (suppression is table-driven by its status)
 FINDING_IDS = {
     "tail-call-arg": "F1", "union-to-generic": "F2", "nil-binder": "F27", "stale-narrowing": "F53",
-    "match-provenance": "F54", "recursive-binder": "F59",
+    "match-provenance": "F54", "recursive-binder": "F84",
     "nil-through-type-test": "F13c01", "failed-match-binder": "F74", "tail-branch-never": "F66",
     "unify-recursive-tail": "F67", "partial-position": "F68", "implicit-nil-application": "F58",
+    "star-partial-nil-binder": "F80", "typevar-capture": "F81",
+    "union-widening-dropped": "F83",
 }
 
 
@@ -510,10 +622,14 @@ class Classifier:
     def classify_one(self, src, mods, failure):
 
         """-> symbolic signature name (see FINDING_IDS) or None"""
-        for name, fn in (("nil-binder", self.sig_f27), ("failed-match-binder", self.sig_failed_match), ("stale-narrowing", self.sig_f53),
+        for name, fn in (("nil-binder", self.sig_f27), ("star-partial-nil-binder", self.sig_star_nil),
+                         ("failed-match-binder", self.sig_failed_match), ("stale-narrowing", self.sig_f53),
                          ("match-provenance", self.sig_f54), ("tail-call-arg", self.sig_f1),
                          ("partial-position", self.sig_partial), ("nil-through-type-test", self.sig_f13),
-                         ("tail-branch-never", self.sig_tail_never), ("unify-recursive-tail", self.sig_unify_cycle),
+                         ("typevar-capture", self.sig_typevar_capture),
+                         ("unify-recursive-tail", self.sig_unify_cycle),
+                         ("union-widening-dropped", self.sig_union_widening),
+                         ("tail-branch-never", self.sig_tail_never),
                          ("recursive-binder", self.sig_f59), ("union-to-generic", self.sig_f2),
                          ("implicit-nil-application", self.sig_f58)):
             try:
@@ -569,9 +685,16 @@ class Classifier:
     # in a self tail call `^`. Signature: the program has a bare self tail call, the judgement
     # rejects, and the value inhabits the DECLARED result type of a function of the program.
     def sig_tail_never(self, src, mods, failure):
-        if failure.get("kind") != "result-not-in-inferred-type" or not (failure.get("fnres") or failure.get("nevertop")):
+        if failure.get("kind") != "result-not-in-inferred-type":
             return False
-        return re.search(r"\S\s+\^\s*[}|\n,]", strip_strings(src)) is not None
+        s0 = strip_strings(src)
+        if re.search(r"\S\s+\^\s*[}|\n,]", s0) is None:
+            return False
+        if failure.get("nevertop"):
+            return True
+        # a too-narrow (not empty) call-site type: only when no generic function is involved
+        # (generic instantiation defects F67/F81/F2 have their own signatures)
+        return bool(failure.get("fnres")) and "#<" not in s0 and not re.search(r"%(list|iter)\b", s0)
 
     # ---- unify-recursive-tail: unify binds a type variable from the first element of a recursive
     # argument and never checks the recursive tail. Signature (syntactic + failure): a generic
@@ -579,18 +702,65 @@ class Classifier:
     def sig_unify_cycle(self, src, mods, failure):
         s0 = strip_strings(src)
         rec_aliases = re.findall(r"'([a-z_][A-Za-z0-9_]*)\s*(?:<[^=\n]*>)?\s*=[^\n]*\^", s0)
-        for m in re.finditer(r"#<[^{}]*\{", s0):
-            if any(re.search(r"'" + re.escape(a) + r"(?![A-Za-z0-9_])", m.group(0)) for a in rec_aliases):
-                return True
-        # generic functions over the std recursive list type (%list / %iter): semantic arm — the
-        # failure depends on the recursive TAIL of a list literal: with every outermost
-        # `Cons[h, t]` literal cut to `Cons[h, Nil]` the program is accepted and passes
-        if not re.search(r"%(list|iter)\b", s0):
+        generic_rec = any(any(re.search(r"'" + re.escape(a) + r"(?![A-Za-z0-9_])", m.group(0)) for a in rec_aliases)
+                          for m in re.finditer(r"#<[^{}]*\{", s0))
+        if not generic_rec and not re.search(r"%(list|iter)\b", s0):
             return False
+        if not heterogeneous_cons(src):
+            return False
+        # the failure depends on the recursive TAIL of a list literal: with every outermost
+        # `Cons[h, t]` literal cut to `Cons[h, Nil]` (or to `t`) the program is accepted and passes
         vs = [v for v in (cut_cons_tails(src, False), cut_cons_tails(src, True)) if v != src]
         if not vs:
             return False
         recs = self.outcomes(vs, mods)
+        return any(r["status"] == "accepted" and not r["failure"] for r in recs)
+
+    # ---- typevar-capture (F81): a generic function calls a generic callee whose type parameter has
+    # the SAME NAME: unify's "don't bind a variable to itself" leaves the callee's variable unbound
+    # and the `[]` variant of the argument then binds it to nil (std: %iter.take_while / drop_while /
+    # filter are typed `-> Iter[.. [[], ..] ..]`). Signature, arm A: the source holds two generic
+    # function literals sharing a variable name and with the variables renamed apart the failure
+    # disappears; arm B: the program uses %iter, and the judgement accepts once the nil type reads
+    # as top (the value is right, a variable was instantiated to nil).
+    def sig_typevar_capture(self, src, mods, failure):
+        s0 = strip_strings(src)
+        heads = list(re.finditer(r"#<([^<>]*)>", s0))
+        if len(heads) >= 2:
+            names = [set(x.strip() for x in m.group(1).split(",")) for m in heads]
+            if any(names[i] & names[j] for i in range(len(names)) for j in range(i)):
+                v = rename_typevars_apart(src)
+                if v and v != src:
+                    rec = self.outcomes([v], mods)[0]
+                    if rec["status"] == "accepted" and not rec["failure"]:
+                        return True
+        if failure.get("kind") == "result-not-in-inferred-type" and failure.get("niltop") and re.search(r"%iter\b", s0) \
+                and not heterogeneous_cons(src):
+            return True
+        return False
+
+    # ---- union-widening-dropped: unify, both sides unions: an argument variant matched
+    # against an ALREADY-BOUND type variable widens it, and the merge then drops that widening
+    # while still counting the variant as matched (`#'t -> ('t | [])` accepts a callback returning
+    # `Ok | []` with 't left at 'int). Signature: a generic callee (in the source or %iter/%list)
+    # receives a function literal inside a bracketed argument, and the failure disappears when
+    # that literal's result is NOT a union: its body boxed into a one-field tuple.
+    def sig_union_widening(self, src, mods, failure):
+        s0 = strip_strings(src)
+        if "#<" not in s0 and not re.search(r"%(list|iter)\b", s0):
+            return False
+        if failure.get("kind") == "vm-type-failure":
+            # the first symptom along the program: a failing PREFIX with the judgement-level signature
+            pre = prefixes(src)[:12]
+            recs = self.outcomes(pre, mods)
+            return any(r["status"] == "accepted" and r["failure"] and r["failure"].get("kind") == "result-not-in-inferred-type"
+                       and self.sig_union_widening(p_src, mods, r["failure"]) for p_src, r in zip(pre, recs))
+        variants = []
+        for (b0, b1) in fn_literal_bodies(src)[:5]:
+            variants.append(src[:b0] + "{ [{" + src[b0 + 1:b1] + "}] }" + src[b1 + 1:])
+        if not variants:
+            return False
+        recs = self.outcomes(variants, mods)
         return any(r["status"] == "accepted" and not r["failure"] for r in recs)
 
     # ---- implicit-nil-application (F58): a callable at the HEAD of a chain (a builtin `__b__` or an
@@ -613,7 +783,13 @@ class Classifier:
     # re-binds. Signature: the judgement rejects but accepts when variants of recursive types read
     # as top; for a VM-level failure: some PREFIX of the program shows that symptom.
     def sig_f59(self, src, mods, failure):
+        s00 = strip_strings(src)
         if failure.get("kind") == "result-not-in-inferred-type":
+            # precondition of both arms: the source declares a recursive alias and a function
+            # destructures a value with binders
+            if re.search(r"'[a-z_][A-Za-z0-9_]*\s*(?:<[^=\n]*>)?\s*=[^\n]*\^", s00) is None \
+                    or re.search(r"#[^{}]*\{[^{}]*=[A-Z][A-Za-z0-9_]*\[[^\]]*[a-z]", s00) is None:
+                return False
             if failure.get("lenient"):
                 return True
             # second arm: a recursive alias is declared, a function destructures it with binders,
@@ -773,6 +949,37 @@ class Classifier:
     # their static type where the failure does not short-circuit (tuple field, mid-chain).
     # Signature: some identifier of the program, observed as `[x]` right after the step that
     # mentions it, holds nil outside its static type (and it is not a bare binder: that is F27).
+    STAR_RE = re.compile(r"(?:^|[\s=\[,(|])[A-Z]?[A-Za-z0-9_]*\*(?=\s|$|[\],)=])")
+    SHORT_PARTIAL_RE = re.compile(r"(?:^|[\s=\[,(|])[A-Z]?[A-Za-z0-9_]*\(\s*[a-z_][A-Za-z0-9_]*\s*[,)]")
+
+    # ---- star-partial-nil-binder (F80): the binders of a star pattern and of the shorthand fields
+    # of a partial pattern are typed without_nil(field) though nothing requires the field to be
+    # non-nil. Signature: a step holds such a pattern, the match SUCCEEDS (the program cut after
+    # that step evaluates to Ok), and a name it binds, observed as `[x]` right after, holds nil
+    # outside its static type.
+    def sig_star_nil(self, src, mods, failure):
+        steps = split_steps(src)
+        probes, cuts = [], []
+        for k, st in enumerate(steps):
+            s0 = strip_strings(st)
+            if st.lstrip().startswith("'") or not (self.STAR_RE.search(s0) or self.SHORT_PARTIAL_RE.search(s0)):
+                continue
+            cuts.append(",\n".join(steps[:k + 1]))
+            # a star binds the labels of the matched value: candidates are all labels / names in scope
+            ids = list(dict.fromkeys(re.findall(r"(?<![A-Za-z0-9_'.$&%#])([a-z][A-Za-z0-9_]*)(?![A-Za-z0-9_(<])", strip_strings(",".join(steps[:k + 1])))))
+            for x in ids[-10:]:
+                probes.append((len(cuts) - 1, ",\n".join(steps[:k + 1] + ["[" + x + "]"])))
+        if not probes:
+            return False
+        probes = probes[-24:]
+        recs = self.outcomes(cuts + [p for _, p in probes], mods)
+        cut_ok = [r["status"] == "accepted" and r["run"] is not None and (r["run"].value or "").strip() == "(t 1)" for r in recs[:len(cuts)]]
+        for (ci, _), r in zip(probes, recs[len(cuts):]):
+            if cut_ok[ci] and r["status"] == "accepted" and r["failure"] and r["failure"]["kind"] == "result-not-in-inferred-type":
+                if re.match(r"^\(t \d+ \(t 0\)\)$", (r["run"].value or "").strip()):
+                    return True
+        return False
+
     def sig_failed_match(self, src, mods, failure):
         steps = split_steps(src)
         probes = []
@@ -1033,7 +1240,7 @@ def corpus_items():
                     p = sexpr.parse(rest[:e + 1])
                     mods.append((p[1], p[2]))
                     rest = rest[e + 1:].strip()
-                out.append(dict(src=first, mods=mods, origin="corpus:" + fn))
+                out.append(dict(src=first, mods=mods, origin="corpus:" + fn, must_pass=fn.startswith("c01_regress")))
             except (ValueError, IndexError):
                 continue
     return out
@@ -1190,6 +1397,13 @@ def run(ctx):
     reported = 0
     # classification re-runs VARIANTS of the failing program on the real compiler; quick tier
     # classifies every corpus/repository failure and a bounded sample per (origin, oracle) group
+    # regression probes of REPAIRED findings (corpus/c01_regressions.txt) must not fail at all:
+    # they are reported directly, whatever signature they would match
+    for rec in [r for r in all_failures if r["item"].get("must_pass")]:
+        it = rec["item"]
+        ctx.violation({"kind": "impl-violation", "oracle": "regression probe of a repaired finding fails again: " + rec["failure"]["kind"],
+                       "source": it["src"], "modules": it.get("mods", []), "origin": it.get("origin"), "failure": rec["failure"]})
+    all_failures = [r for r in all_failures if not r["item"].get("must_pass")]
     groups = {}
     for rec in all_failures:
         it = rec["item"]
